@@ -42,7 +42,13 @@
 (*                     of the first one                                    *)
 (*             hasXfer / hasScope  the value carries transfer-ownership /  *)
 (*                     scope;  vskip  the value carries skip="1"           *)
-(*   G.idx     [id, kind (closure|destroy|length), idx, n, marked]         *)
+(*   G.idx     [id, kind (closure|destroy|length), idx, n, marked, pname,  *)
+(*             want]   one record per written index, of EVERY emitted copy *)
+(*             of a callable (function and its moved-to method copy, class *)
+(*             structure callback field and the virtual method made from   *)
+(*             it): n = number of <parameter> (fields) of the very element *)
+(*             that carries it, pname = the name at position idx there,    *)
+(*             want = the name the annotation named ("" = not known)       *)
 (*   G.pairs   [kind, scope, name, attr, value]  name-valued references    *)
 (*   G.inferred  the accessor attributes (setter, getter, set-property,    *)
 (*             get-property) of this GIR are known to be inferred by the   *)
@@ -153,6 +159,8 @@ Shape(G, u, c) ==
 ---------------------------------------------------------------------------
 \* cross references
 IndexInRange(r) == r.idx >= 0 /\ r.idx < r.n
+\* "... indices name existing parameters or fields": the one that was meant, where the input tells which
+IndexNames(r)   == r.want # "" => r.pname = r.want
 
 P(kind, scope, name, attr, value) == [kind |-> kind, scope |-> scope, name |-> name, attr |-> attr, value |-> value]
 HasFn(PS, scope, name) ==      \* a function-like element `name` directly inside `scope`
@@ -198,16 +206,19 @@ Rejections(G) ==
     UNION {UseRejections(G, G.uses[i]) : i \in DOMAIN G.uses}
     \cup {<<"IndexInRange", G.idx[i].kind \o "-index-out-of-range", G.idx[i].id>> :
         i \in {j \in DOMAIN G.idx : ~IndexInRange(G.idx[j])}}
+    \cup {<<"IndexNames", G.idx[i].kind \o "-index-names-another-parameter", G.idx[i].id>> :
+        i \in {j \in DOMAIN G.idx : IndexInRange(G.idx[j]) /\ ~IndexNames(G.idx[j])}}
     \cup UNION {PairRejections(G, PS, G.pairs[i]) : i \in DOMAIN G.pairs}
 
 Closed(G) == Rejections(G) = {}
 
-AllClauseNames == UseClauseNames \cup PairClauseNames \cup {"IndexInRange", "NotJudged", "LiteralOnly"}
+AllClauseNames == UseClauseNames \cup PairClauseNames \cup {"IndexInRange", "IndexNames", "NotJudged", "LiteralOnly"}
 \* how often each clause spoke (vacuity), plus the number of references that were skipped
 ExercisedCount(G, c) ==
     IF c \in UseClauseNames THEN Cardinality({i \in DOMAIN G.uses : Ante(G, G.uses[i], c)})
     ELSE IF c \in PairClauseNames THEN Cardinality({i \in DOMAIN G.pairs : PairAnte(G, Rng(G.pairs), G.pairs[i], c)})
     ELSE IF c = "IndexInRange" THEN Len(G.idx)
+    ELSE IF c = "IndexNames" THEN Cardinality({i \in DOMAIN G.idx : G.idx[i].want # ""})
     ELSE IF c = "NotJudged" THEN Cardinality({i \in DOMAIN G.uses : ~G.uses[i].marked /\ G.uses[i].tag = "type" /\ G.uses[i].name # ""
                                                 /\ ~IsFund(G.uses[i]) /\ ~Known(G, G.uses[i]) /\ NotJudged(G, G.uses[i])})
     ELSE Cardinality({i \in DOMAIN G.uses : LiteralOnly(G, G.uses[i])})
